@@ -80,4 +80,26 @@ theorem validator_queries_copy_the_module : Facts.stakingValidatorInfoFields =
      ("Status", "uint8(stakingtypes.BondStatus_value[v.Status.String()])"),
      ("Tokens", "big.NewInt(0)"), ("Tokens", "v.Tokens.BigInt()"), ("Tokens", "v.Tokens.BigInt()")] := by decide
 
+/-- the precompile's reading of a 256-bit creation height: before 98e7ca9 its low 64 bits (`checked = false`), now the
+    height itself when it fits an int64 and a refusal otherwise -/
+def heightArg (checked : Bool) (w : Nat) : Option Nat :=
+  if checked then (if w < 2 ^ 63 then some w else none) else some (w % 2 ^ 64)
+
+/-- a height the precompile passes on is the height the caller wrote -/
+theorem height_names_only_itself (w h : Nat) (hh : heightArg true w = some h) : h = w := by
+  unfold heightArg at hh
+  simp only [if_true] at hh
+  split at hh
+  · exact (Option.some.inj hh).symm
+  · cases hh
+
+/-- before: 2^64 + 5 was read as 5 — the entry created at height 5 was cancelled by a call no native message expresses -/
+theorem height_wrap_counterexample : heightArg false (2 ^ 64 + 5) = some 5 ∧ heightArg true (2 ^ 64 + 5) = none := by decide
+
+/-- the code's side of `heightArg true`: every narrowing conversion of a big integer in the precompile packages sits behind a
+    range test that returns (regenerated from precompiles/*/*.go) -/
+theorem narrowing_conversions_are_guarded :
+    Facts.precompileNarrowingConversions = [("precompiles/staking/types.go:NewMsgCancelUnbondingDelegation:creationHeight.Int64()", "guarded")] := by
+  decide
+
 end Haqq.C16
